@@ -91,6 +91,16 @@ let parse_op (t : string list) (out : gout) : gop =
   | ("H" | "U") :: r ->
       let (o, fails) = parse_opts r in
       GUpdate (o, fails, List.map fst out.og_dials)      (* dial order oracle: the dial log *)
+  | "UB" :: r ->
+      (* an update with a blocked dial and a flap of endpoint e meanwhile: for the model an
+         ordinary update (the readiness of e is the same before and after; the harness
+         writes the line when the monitors are quiescent, then a P line) *)
+      let rec split acc = function
+        | ["K"; _] -> List.rev acc
+        | x :: r' -> split (x :: acc) r'
+        | [] -> raise (Bad "UB without K") in
+      let (o, fails) = parse_opts (split [] r) in
+      GUpdate (o, fails, List.map fst out.og_dials)
   | ["SU"; e] -> GMark (true, ion e)
   | ["SD"; e] -> GMark (false, ion e)
   | ["P"; e; b] -> GReady (ion e, b <> "0")
